@@ -14,27 +14,38 @@ COQ_CASE_TYPE = "case"
 COQ_RUN = "run_case"
 TABLE_CONSTRUCTS = ["wrapped_step_order", "run_model_loop"]
 RULE = ("histories = 1-3 Model subclass hierarchies of depth 0-6 built with type() (each level: defines step or not, "
-        "fixed arity 0-2 or *args/**kwargs, calls super().step() forwarding its arguments or none, clears running "
-        "at a threshold, raises at a step number) + 1-4 instances (several of one class too) + 4-30 interleaved "
-        "step(*args, **kwargs) calls with matching and mismatching argument lists, run_model() and "
-        "running = True/False; every body logs self.steps, self.running and its arguments; the first part of every "
-        "run enumerates all hierarchies of depth <= 3 over 10 level kinds; non-trivial = at least 2 step/run_model "
-        "calls of which one executed user code; distinct = by SHA1 of the history")
+        "fixed arity 0-2 or *args/**kwargs, calls super().step() forwarding its arguments or none, clears running at a threshold, "
+        "raises at a step number, calls self.step() recursively below a threshold), half of the deeper ones with MULTIPLE "
+        "inheritance (every class lists the next level first, then any later ones; 8 % with a reversed base list that must be "
+        "refused), a quarter of the classes with falsy instances (__bool__ False, __len__ 0), a quarter with a step-defining mixin "
+        "placed AFTER Model in the bases (must never run) + 1-4 instances (several of one class too) + 4-30 interleaved "
+        "step(*args, **kwargs) calls with matching and mismatching argument lists (0-3, sometimes 6 arguments; in 30 % of the "
+        "histories the arguments are twelve exotic objects - None, float, str, tuple, bool, 2**70, numpy scalar, 0-d array, [], dict, "
+        "Decimal, Fraction - mapped back by identity), run_model() and running = True/False, continuing after TypeError and user "
+        "exceptions; every body logs self.steps, self.running and its arguments; the first part of every run enumerates all "
+        "hierarchies of depth <= 3 over 10 level kinds (depth 4 in the thorough tier); non-trivial = at least 2 step/run_model calls "
+        "of which one executed user code; distinct = by SHA1 of the history")
 TRUSTED_BASE = [
-    "Coq 8.16.1 kernel (coqc); vm_compute used for evaluating the model in the correspondence and for the examples",
+    "Coq 8.16.1 kernel (coqc); vm_compute used for evaluating the model in the correspondence, for the examples and for "
+    "C05_generated_mro_is_c3 (33 869 hierarchies); coqchk in the thorough tier",
     "no axioms: Print Assumptions reports 'Closed under the global context' for every C05 theorem",
-    "harness/tables/registry.py (T1) extracting the statement order of _wrapped_step, the rebinding in __init__ and the run_model loop",
-    "harness/props/C05.py driver+observer and the Gallina literal printer (T2, differential testing, not a proof)",
-    "Model/StepCounter.v is a hand transcription of Model.__init__ (step rebinding), _wrapped_step, run_model and of "
-    "CPython attribute lookup (instance attribute before class attribute, MRO = first definer, super() = next "
-    "definer, TypeError on arity mismatch before the body runs)",
+    "harness/tables/registry.py (T1): statement order of _wrapped_step (translated), statement skeletons of Model.__init__ (initial "
+    "steps/running, step rebinding), run_model and Model.step, modulo local names, docstrings, annotations, logger calls, message "
+    "texts; C05_source_shape proves generated = what Model/StepCounter.v hard-codes",
+    "harness/props/C05.py driver+observer, oracle and the Gallina literal printer (T2, differential testing, not a proof)",
+    "Model/StepCounter.v is a hand transcription of Model.__init__ (step rebinding), _wrapped_step, run_model and of CPython "
+    "attribute lookup (instance attribute before class attribute, first definer along the MRO, super() = next definer, TypeError "
+    "on arity mismatch before the body runs); Model/C3.v is the merge algorithm of type.mro, compared with CPython's __mro__ by the driver",
     "Uint63 primitive hash only in scratch Cases files, never under a theorem",
 ]
 ASSUMPTIONS = [
-    "single inheritance chains below mesa.Model; user step code does not call self.step() recursively, does not "
-    "assign self.steps or self.step and does not touch another model",
-    "run_model is only exercised on classes that define step somewhere (otherwise it cannot terminate); the harness "
-    "aborts a run_model loop after a fixed number of calls and the model does the same (fuel)",
+    "user step code does not assign self.steps or self.step and does not touch another model; recursion is `if self.steps < k: "
+    "self.step()` (model fuel 40 deep; theorems exclude fuel exhaustion)",
+    "a hierarchy is used as its MRO: for multiple inheritance NewInstance checks with the C3 merge that the declared base lists "
+    "linearise to the order of the levels (refused otherwise, in the model and by the driver)",
+    "run_model is only exercised on classes that define step somewhere (otherwise it cannot terminate); the harness aborts a "
+    "run_model loop after a fixed number of calls and the model does the same (fuel)",
+    "keyword arguments are canonicalised by the driver (the model sees one positional list)",
 ]
 SOURCE_FUNCS = [("mesa/model.py", "Model.__init__"), ("mesa/model.py", "Model._wrapped_step"), ("mesa/model.py", "Model.run_model"),
                 ("mesa/model.py", "Model.step")]
@@ -84,22 +95,39 @@ def _resolved(levels):
     return None
 
 
-def _gen_args(rng, levels):
+N_EXOTIC = 12
+
+
+def _exotic_table():
+    import decimal
+    import fractions
+
+    import numpy as np
+
+    return [None, 1.5, "txt", (1, 2), True, 2 ** 70, np.int64(3), np.array(5), [], {"a": 1}, decimal.Decimal("0.1"),
+            fractions.Fraction(1, 3)]
+
+
+def _gen_args(rng, levels, exotic=False):
     r = _resolved(levels)
     ar = 0 if r is None else levels[r]["arity"]
     if ar < 0:
-        n = rng.choice([0, 0, 1, 2, 3])
+        n = rng.choice([0, 0, 1, 2, 3, 6])
     elif rng.random() < 0.85:
         n = ar
     else:
         n = rng.choice([0, 1, 2, 3])
-    args = [rng.randint(-5, 20) for _ in range(n)]
+    # exotic histories: the int i stands for the i-th object of _exotic_table() (None, float, str, tuple, bool, a huge int,
+    # numpy scalar, 0-d array, an empty list, a dict, Decimal, Fraction); the driver passes THAT object and maps what the
+    # user code received back by identity, so the model and the oracle see "the caller's arguments, unchanged"
+    args = rng.sample(range(N_EXOTIC), min(n, N_EXOTIC)) if exotic else [rng.randint(-5, 20) for _ in range(n)]
     nkw = rng.choice([0, 0, 1, n]) if n else 0
     return args, min(nkw, n)
 
 
 def _gen_history(rng):
     ncls = rng.choice([1, 1, 2, 3])
+    exotic = rng.random() < 0.3
     classes = []
     bases = []
     for _ in range(ncls):
@@ -122,7 +150,7 @@ def _gen_history(rng):
         r = rng.random()
         i = rng.randrange(len(inst_cls))
         if r < 0.62:
-            args, nkw = _gen_args(rng, classes[inst_cls[i]])
+            args, nkw = _gen_args(rng, classes[inst_cls[i]], exotic)
             ops.append(["step", i, args, nkw])
         elif r < 0.8:
             ops.append(["run", i, FUEL])
@@ -132,7 +160,10 @@ def _gen_history(rng):
             c = rng.randrange(ncls)
             ops.append(["new", c])
             inst_cls.append(c)
-    return {"classes": classes, "bases": bases, "ops": ops}
+    # per class: instances are falsy (__bool__ False, __len__ 0); a mixin defining step is placed AFTER Model in the bases
+    # of the bottom class (Model.step does not call super().step(), so that step must never run)
+    return {"classes": classes, "bases": bases, "ops": ops, "exotic": exotic,
+            "falsy": [rng.random() < 0.25 for _ in classes], "mixin_after": [rng.random() < 0.25 for _ in classes]}
 
 
 _KINDS = [_lvl(False)] + [
@@ -199,10 +230,13 @@ class _Driver:
         self.specs = case["classes"]
         bases = case.get("bases") or [None] * len(self.specs)
         self.depth = 0
+        self.xtable = _exotic_table() if case.get("exotic") else None
+        falsy = case.get("falsy") or [False] * len(self.specs)
+        mixin = case.get("mixin_after") or [False] * len(self.specs)
         self.classes = []
         for ci, lv in enumerate(self.specs):
             try:
-                self.classes.append(self.mk_class(ci, lv, bases[ci]))
+                self.classes.append(self.mk_class(ci, lv, bases[ci], falsy[ci], mixin[ci]))
             except (_BadMRO, TypeError):
                 self.classes.append(None)   # CPython's MRO is not the level order / cannot be built: not instantiated
         self.insts = []
@@ -223,8 +257,26 @@ class _Driver:
                 return i
         return -7
 
-    def mk_class(self, ci, levels, bases=None):
+    def unx(self, x):
+        """what the user code received, as the int the history used for it (identity, not equality)"""
+        if self.xtable is None:
+            return int(x)
+        for i, o in enumerate(self.xtable):
+            if o is x:
+                return i
+        return -99
+
+    def mk_class(self, ci, levels, bases=None, falsy=False, mixin_after=False):
         parent = self.mesa.Model
+        if mixin_after:
+            drv0 = self
+
+            class StepMixin:
+                def step(self, *args, **kwargs):      # shadowed by Model.step: must never run
+                    drv0.log.append((drv0.index_of(self), 99, self.steps, bool(self.running), []))
+
+            parent = type(f"C{ci}Root", (self.mesa.Model, StepMixin), {})
+        root = parent
         res = _resolved(levels)
         drv = self
         built = {}
@@ -238,7 +290,7 @@ class _Driver:
                         drv.calls += 1
                         if drv.budget is not None and drv.calls > drv.budget:
                             raise _Budget
-                    allargs = [int(a) for a in args] + [int(kwargs[k]) for k in sorted(kwargs)]
+                    allargs = [drv.unx(a) for a in args] + [drv.unx(kwargs[k]) for k in sorted(kwargs)]
                     drv.log.append((drv.index_of(self), idx, self.steps, bool(self.running), allargs))
                     if lv["raise"] is not None and self.steps == lv["raise"]:
                         raise _Boom
@@ -267,10 +319,20 @@ class _Driver:
             if bases is not None and bases[idx]:
                 cls = type(f"C{ci}L{idx}", tuple(built[b] for b in bases[idx]), ns)
             else:
-                cls = type(f"C{ci}L{idx}", (parent if bases is None else self.mesa.Model,), ns)
+                cls = type(f"C{ci}L{idx}", (parent if bases is None else root,), ns)
             built[idx] = cls
             holder.append(cls)
             parent = cls
+        if falsy:
+            top = built[0] if (bases is not None and levels) else parent
+            parent = type(f"C{ci}Falsy", (top,), {"__bool__": lambda self: False, "__len__": lambda self: 0})
+            if bases is not None and levels:
+                built = dict(built)
+                mro = [c for c in top.__mro__ if c in built.values()]
+                if mro != [built[k] for k in range(len(levels))]:
+                    raise _BadMRO(f"the multiple-inheritance DAG {bases} does not linearise to the level order")
+                return parent
+            return parent
         if bases is not None and levels:
             mro = [c for c in built[0].__mro__ if c in built.values()]
             if mro != [built[k] for k in range(len(levels))]:
@@ -376,8 +438,9 @@ class _Driver:
         self.budget = None
         if kind == "step":
             args, nkw = op[2], op[3]
-            pos = args[: len(args) - nkw]
-            kw = {f"p{j}": args[j] for j in range(len(args) - nkw, len(args))}
+            sent = [self.xtable[a % N_EXOTIC] for a in args] if self.xtable is not None else list(args)
+            pos = sent[: len(args) - nkw]
+            kw = {f"p{j}": sent[j] for j in range(len(args) - nkw, len(args))}
             status = [0]
             try:
                 m.step(*pos, **kw)
@@ -522,18 +585,25 @@ def nontrivial(case):
     return len(calls) >= 2 and any(len(o) > 4 and o[0] == 0 and o[3] > 0 for o in calls)
 
 
-LEVEL_TEXT = ("Machine-checked Coq theorems over a Gallina transcription of Model.__init__'s step rebinding, _wrapped_step "
-              "and run_model together with CPython's lookup of step along a class hierarchy: for every hierarchy (any depth, "
-              "any subset of levels defining step, any subset calling super, any arities), every argument list and every "
-              "outcome (normal, TypeError, exception in user code) one call advances steps by exactly one, every user body "
-              "runs after the increment and sees the new value, the bodies run are exactly the super chain from the first "
-              "definer (each once, a prefix of it if one raises) and the first receives the caller's arguments; run_model "
-              "performs exactly the calls made while running was true and returns with running false; and in every "
-              "interleaved history each instance evolves exactly as if it were alone. Tied to the code by differential "
-              "evaluation (vm_compute) on all hierarchies of depth <= 3 over 10 level kinds and random deeper ones (T2); "
-              "an independent oracle states the property on the implementation and supplies the failing input.")
-LEVEL_NOTE = ("Theorems are about the model; CPython's attribute lookup/MRO/super and the call protocol are modelled, not "
-              "verified. Multiple inheritance, recursive self.step() and user assignments to steps/step are outside the "
-              "model. Trusted: Coq kernel, the driver/observer. No axioms.")
-TECHNIQUE = "Coq proof (structural induction over hierarchies, fuel and op lists; closed under global context) + vm_compute correspondence"
+LEVEL_TEXT = ("19 machine-checked Coq theorems (+ 6 examples) over Model/StepCounter.v, Model/C3.v, Proofs/StepCounterProofs.v, for every "
+              "hierarchy (any depth, any subset of levels defining step, any arities, any subset calling super, diamonds and mixins via the "
+              "MRO list), every argument list and every outcome (normal, TypeError, exception in user code): without recursion one call "
+              "advances steps by exactly one, every user body runs after the increment and sees the new value, the bodies run are "
+              "exactly the super chain from the first definer (each once; a prefix if one raises), the first receives the caller's "
+              "arguments, a rejected call still counts; with recursive self.step() at any level and depth every call - outer or nested - "
+              "is counted exactly once before its user code (resolved bodies see steps+1, steps+2, ..., final; variadic and "
+              "parameterless steps), and with a parameterised step the nested call is counted, rejected, and unwinds the outer call; "
+              "run_model performs exactly the calls made while running was true and returns with running false; in every interleaved "
+              "history each instance ends where its own operations alone take it (projection) and steps counts the calls; the C3 "
+              "linearisation of every generator-shaped hierarchy of depth <= 7 is the level order. Tied to the code by T1 (statement "
+              "order/skeletons re-read from the source on every run) and by differential evaluation under vm_compute on all hierarchies of "
+              "depth <= 3 over 10 level kinds and random deeper ones (T2); an independent oracle states the property on the "
+              "implementation and supplies the failing input.")
+LEVEL_NOTE = ("Theorems are about the model; CPython's attribute lookup, super() and the call protocol are modelled, not verified; C3 is "
+              "proved equal to the level order only for the generated family up to depth 7 (by computation), not for all depths. "
+              "Outside the model: user assignments to steps/step, user code touching another model, classes whose __init__ skips "
+              "super().__init__(). No defect of the unchanged tree in this area. Trusted: Coq kernel, the T1 extractor, the "
+              "driver/observer. No axioms.")
+TECHNIQUE = ("Coq proof (structural induction over hierarchies inside induction over recursion fuel, induction over op lists; closed "
+             "under the global context) + source-regenerated statement order/skeletons (T1) + vm_compute correspondence and oracle (T2)")
 DESIGN_REF = "DESIGN.md section 4, C05"
